@@ -1017,7 +1017,7 @@ func checkC07(tier string) {
 	pkgAllFoi = mustRead(filepath.Join(c.B.Repo, "pkg", "pkg_all.foi"))
 	nGen, nCorpus := 8000, 60
 	if tier != "quick" {
-		nGen, nCorpus = 150000, 800
+		nGen, nCorpus = 100000, 800
 	}
 	self := corpusSelfBuild(c.B.Repo)
 	corpusProgs := []*Program{self}
